@@ -4,6 +4,7 @@ import (
 	"fmt"
 	"go/token"
 	"go/types"
+	"os"
 	"strings"
 
 	"golang.org/x/tools/go/ssa"
@@ -178,12 +179,12 @@ func ruleProtocol(c *Ctx, rule string) {
 	// delete path
 	pdc := p.SSAFunc(p.Method("boltz", "BaseStore", "processDeleteConstraints"))
 	c.Analysed(FnName(pdc))
-	cleanup := p.Method("boltz", "BaseStore", "cleanupLinks")
+	_, isCleanupStep, _ := linkCleanupSite(c)
 	for _, w := range []struct {
-		f    *types.Func
+		is   func(ssa.Instruction) bool
 		what string
-	}{{icDel, "ProcessBeforeDelete"}, {cleanup, "cleanupLinks"}} {
-		ri := reachWithout(pdc, func(in ssa.Instruction) bool { return isCallTo(in, w.f) })
+	}{{func(in ssa.Instruction) bool { return isCallTo(in, icDel) }, "ProcessBeforeDelete"}, {isCleanupStep, "cleanupLinks"}} {
+		ri := reachWithout(pdc, w.is)
 		ok := true
 		for _, r := range returnsOf(pdc) {
 			if !isNilConst(r.Results[0]) && ri.Reaches(r) {
@@ -900,7 +901,9 @@ func ruleFkWiring(c *Ctx, rule string) {
 		m        string
 		own, del string
 	}{
-		{"addFkIndex", "fkIndex", "fkDeleteConstraint"},
+		// the exported entry points (their shared unexported helper is expanded by the normalisation pass)
+		{"AddFkIndex", "fkIndex", "fkDeleteConstraint"},
+		{"AddNullableFkIndex", "fkIndex", "fkDeleteConstraint"},
 		{"AddFkIndexCascadeDelete", "fkIndex", "fkDeleteCascadeConstraint"},
 		{"AddFkConstraint", "fkConstraint", "fkDeleteCascadeConstraint"},
 	} {
@@ -966,7 +969,7 @@ func ruleFkWiring(c *Ctx, rule string) {
 		}
 		c.Check(ok, rule, name, p.Pos(fn.Pos()), "registers the forward constraint and, on the referenced store, the matching delete-side constraint on every non-panicking path", why)
 	}
-	c.Floor(rule, 3)
+	c.Floor(rule, 4)
 }
 
 func constantInt(k *ssa.Const) (int64, bool) {
@@ -1307,7 +1310,7 @@ func ruleRcCheck(c *Ctx, rule string) {
 // every link unconditionally.
 func ruleLinkCleanup(c *Ctx, rule string) {
 	p := c.P
-	cl := p.SSAFunc(p.Method("boltz", "BaseStore", "cleanupLinks"))
+	cl, _, _ := linkCleanupSite(c)
 	c.Analysed(FnName(cl))
 	for _, fld := range []string{"links", "refCountedLinks"} {
 		f := p.Field("boltz", "BaseStore", fld)
@@ -1371,10 +1374,10 @@ func unconditionalDelete(c *Ctx, cg *CG, fn *ssa.Function, prims []*types.Func, 
 		}
 		return false
 	}
-	return noPathAvoiding(fn, isDel, func(from, to *ssa.BasicBlock) bool {
+	res := noPathAvoidingDbg(fn, isDel, func(from, to *ssa.BasicBlock) bool {
 		for f := range fi.edgeFacts(from, to) {
-			if f.Kind == "nonnil" && !f.Pol {
-				return true // something is missing: nothing to remove
+			if f.Kind == "nonnil" && !f.Pol && !isErrorType(f.V.Type()) {
+				return true // something (a bucket, an entity) is missing: nothing to remove — `err == nil` is not that
 			}
 			if f.Kind == "true" && f.Pol {
 				if k, ok := f.V.(*ssa.Call); ok && invokeNamed(k, "HasError") {
@@ -1384,6 +1387,14 @@ func unconditionalDelete(c *Ctx, cg *CG, fn *ssa.Function, prims []*types.Func, 
 		}
 		return false
 	})
+	if os.Getenv("VERIF_DEBUG") != "" {
+		fmt.Fprintf(os.Stderr, "unconditionalDelete(%s, depth %d) = %v\n", FnName(fn), depth, res)
+	}
+	return res
+}
+
+func noPathAvoidingDbg(fn *ssa.Function, avoid func(ssa.Instruction) bool, allowed func(from, to *ssa.BasicBlock) bool) bool {
+	return noPathAvoiding(fn, avoid, allowed)
 }
 
 // ruleNoMutateWhileIterating: inside a loop that advances a bbolt cursor obtained from bucket X,
@@ -1706,11 +1717,18 @@ func rulePathFresh(c *Ctx, rule string) {
 func ruleCleanupPlacement(c *Ctx, rule string) {
 	p := c.P
 	pdc := p.SSAFunc(p.Method("boltz", "BaseStore", "processDeleteConstraints"))
-	cleanup := p.Method("boltz", "BaseStore", "cleanupLinks")
+	_, isCleanupStep, inlined := linkCleanupSite(c)
 	ok := false
 	for _, call := range callsIn(pdc) {
-		if isCallTo(call, cleanup) && call.Common().Args[0] == ssa.Value(pdc.Params[0]) {
+		if !inlined && isCleanupStep(call) && call.Common().Args[0] == ssa.Value(pdc.Params[0]) {
 			ok = true
+		}
+	}
+	if inlined {
+		for _, b := range pdc.Blocks {
+			if len(b.Instrs) > 0 && isCleanupStep(b.Instrs[0]) {
+				ok = true
+			}
 		}
 	}
 	c.Check(ok, rule, FnName(pdc)+": cleans this store's links", p.Pos(pdc.Pos()), "every store level (parent and child) cleans its own link collections", "link cleanup is not part of the per-store-level delete processing: link collections declared on a child store are never cleaned")
@@ -1783,6 +1801,30 @@ func ruleRawIdFilter(c *Ctx, rule string) {
 				ok = false
 				why = "the constant's value at " + p.Pos(st.Pos()) + " is not the id parameter itself (" + describeValue(st.Val) + "): ids containing quotes or backslashes would select the referrers of a different id"
 			}
+			// the constant belongs to THIS call's query: the cascade is re-entrant (deleting a referrer runs the
+			// same constraint again), so a constant node shared between calls is overwritten while the outer
+			// call is still iterating with it
+			if fa, isFa := st.Addr.(*ssa.FieldAddr); !isFa || !isFreshAlloc(fa.X) {
+				ok = false
+				why = "the id is written at " + p.Pos(st.Pos()) + " into a constant node that was not allocated by this call (" + describeValue(st.Addr.(*ssa.FieldAddr).X) + "): the filter of an outer, still running cascade over the same symbol is changed under it"
+			}
+		}
+	}
+	// ... and the function keeps no state between calls: it neither writes a package-level variable nor hands
+	// one to a callee (cache lookups/stores)
+	for _, b := range fn.Blocks {
+		for _, in := range b.Instrs {
+			for _, op := range in.Operands(nil) {
+				g, isG := (*op).(*ssa.Global)
+				if !isG || g.Pkg == nil || !strings.HasPrefix(g.Pkg.Pkg.Path(), modPath) {
+					continue
+				}
+				if ld, isLd := in.(*ssa.UnOp); isLd && ld.Op == token.MUL {
+					continue // reading a table
+				}
+				ok = false
+				why = "the function uses the package-level variable " + g.Name() + " at " + p.Pos(in.Pos()) + " other than by reading it: queries (or parts of them) kept between calls are shared with an outer, still running cascade"
+			}
 		}
 	}
 	if n == 0 {
@@ -1807,4 +1849,42 @@ func ruleRemoteWrites(c *Ctx, rule string) {
 		c.Check(ok, rule, name, p.Pos(fn.Pos()), "every successful return has written the count on this (remote) side through TypedBucket."+w.prim, "a successful return is reachable without writing the count on this side (for instance when the link bucket does not exist yet): the two sides of the link then disagree")
 	}
 	c.Floor(rule, 2)
+}
+
+// linkCleanupSite: where the link collections of a store are cleaned when an entity is deleted — the
+// helper cleanupLinks if it exists, else (inlined by a maintainer) processDeleteConstraints itself.
+// isStep recognises "the cleanup happens here" inside processDeleteConstraints.
+func linkCleanupSite(c *Ctx) (fn *ssa.Function, isStep func(ssa.Instruction) bool, inlined bool) {
+	p := c.P
+	if m := p.MethodOpt("boltz", "BaseStore", "cleanupLinks"); m != nil {
+		return p.SSAFunc(m), func(in ssa.Instruction) bool { return isCallTo(in, m) }, false
+	}
+	pdc := p.SSAFunc(p.Method("boltz", "BaseStore", "processDeleteConstraints"))
+	// the loops over the link collections may run zero times: "the cleanup happens here" = the loop is entered
+	headers := map[*ssa.BasicBlock]bool{}
+	loops := loopsOf(pdc)
+	for _, call := range callsIn(pdc) {
+		if call.Common().IsInvoke() && call.Common().Method.Name() == "EntityDeleted" {
+			if l := innermostLoop(loops, call.Block()); l != nil {
+				headers[l.Header] = true
+			}
+		}
+	}
+	return pdc, func(in ssa.Instruction) bool { return headers[in.Block()] }, true
+}
+
+// isFreshAlloc: v is the address of an object allocated in this function (new / &T{...}).
+func isFreshAlloc(v ssa.Value) bool {
+	switch x := v.(type) {
+	case *ssa.Alloc:
+		return true
+	case *ssa.Phi:
+		for _, e := range x.Edges {
+			if !isFreshAlloc(e) {
+				return false
+			}
+		}
+		return len(x.Edges) > 0
+	}
+	return false
 }
